@@ -56,8 +56,12 @@ class Ed25519Key(PKey):
             )
             verifying_key = nacl.signing.VerifyKey(msg.get_binary())
         elif filename is not None:
-            with open(filename, "r") as f:
-                pkformat, data = self._read_private_key("OPENSSH", f)
+            try:
+                with open(filename, "r") as f:
+                    pkformat, data = self._read_private_key("OPENSSH", f)
+            except UnicodeDecodeError:
+                # (raised by the text-mode read) not a key file at all
+                raise SSHException("not a valid OPENSSH private key file")
         elif file_obj is not None:
             pkformat, data = self._read_private_key("OPENSSH", file_obj)
 
